@@ -211,6 +211,27 @@ CHECKS = {
                       "recorded output is still missing, and ends once the unit is finished and everything recorded was sent.",
         "level_note": _TRUST,
     },
+    "C08": {
+        "pkgs": ["./pkg/controlsvc", "./pkg/workceptor"],
+        "bounds": {
+            "quick": "session: ANY request line of 0..4 bytes (newline-terminated or cut by a disconnect, with or without empty reads) followed by a "
+                     "valid command; built-in commands status/ping/traceroute/connect/reload/unknown as JSON lines through the real session "
+                     "loop with every looked-up field absent or of each JSON type, and the command field missing or of a wrong type; work "
+                     "subcommands (9 spellings) as JSON with unit IDs {known, disk-only, unknown, .., ., empty, ../x, id/status, a/b} or of any JSON "
+                     "type, startpos/signature/node/worktype of any JSON type; plain-text work commands of up to 3 tokens from a 15-word vocabulary",
+            "thorough": "as quick with request lines of 0..5 bytes and plain-text work commands of up to 4 tokens",
+        },
+        "common": {"maxpaths": 400000, "witnesses": 1},
+        "assumptions": ["encoding/json replaced by the value-preserving blob model (a JSON line is one opaque object whose first byte is '{')",
+                        "processes are not modelled (exec fails)"],
+        "outside": ["unbounded line growth (memory)", "latency", "more than one concurrent session (only the lock discipline that would make "
+                    "sessions interfere is checked: no lock is left held, no self-deadlock)", "request lines longer than the bound"],
+        "level_text": "Bounded symbolic execution of the real RunControlSession loop over a scripted connection, of InitFromString/InitFromJSON/"
+                      "ControlFunc of every built-in command and of the work command with findUnit/scanForUnit on the file-system model: no "
+                      "panic, every non-empty invalid request line is answered with ERROR, the session survives to answer the next command, no "
+                      "lock stays held, nothing outside the unit directories is touched.",
+        "level_note": _TRUST,
+    },
     "C10": {
         "pkgs": ["./pkg/netceptor"],
         "bounds": "step lemma for all 256 budgets, arbitrary routing table (no route / via B / via C / via unconnected X) for source and "
